@@ -252,25 +252,31 @@ def bounded_families(ctx):
 
 def bounded_transformations(ctx):
     thorough = ctx.tier == 'thorough'
-    bases = [e for e in xf.small_entries(False) if e['id'] in ('php-3-2', 'op-3', 'peb-G0:d4', 'and-2-1', 'true', 'false', 'or-0-0')]
-    # a base with unused top variables and one with an empty clause among others come from the library histories below;
-    # here: families whose every variable occurs, plus 'and 2 1'/'or 0 0'/'true'/'false' as degenerate inputs
+    ids = ('php-3-2', 'php-2-2', 'peb-G0:d3m2', 'and-2-1', 'true', 'false', 'or-0-0', 'or-1-1')
+    bases = [e for e in xf.small_entries(False) if e['id'] in ids]
+    assert len(bases) >= 6, [e['id'] for e in bases]
+    # bases have clauses of width <= 2; to keep the blow-up of two nested substitutions bounded, one of the two
+    # steps is always "light" (at most two clauses per substituted literal, arity <= 2)
     ts = xf.TRANSFORMATIONS
+    name = lambda t: ' '.join(map(str, t[0]))
+    light2 = [t for t in ts if name(t) in ('none', 'flip', 'shuffle', 'or 1', 'xor 1', 'or 2', 'xor 2', 'ite', 'lift 2', 'eq 2')]
+    light1 = [t for t in ts if name(t) in ('none', 'flip', 'shuffle', 'or 1', 'xor 1')]
     chains = [[t[0]] for t in ts]
-    second = ts if thorough else [t for t in ts if t[0][0] in ('flip', 'shuffle', 'xor', 'lift', 'ite', 'exact', 'none')][:8]
-    for a in ts:
-        for b in second:
-            chains.append([a[0], b[0]])
+    for a_ in ts:
+        for b_ in ts:
+            if (b_ in light2) or (a_ in light1):
+                if thorough or a_ in light2 or b_ in light1 or name(b_) in ('flip', 'shuffle', 'xor 2', 'lift 2'):
+                    chains.append([a_[0], b_[0]])
     tasks = []
     for e in bases:
         for ch in chains:
-            # keep the product of growth factors moderate
-            n = e['nvars'] or 0
-            for t in ch:
-                n = _tfun(t)(n)
-            if n > (400 if thorough else 150):
-                continue
             tasks.append((e, 'cli', 'cnf', [list(t) for t in ch], ctx.seed))
+    # a base whose top variables occur in no clause (random 3-CNF with 9 variables and one clause)
+    sparse = [e for e in xf.small_entries(False) if e['id'] == 'randkcnf-3-9-1']
+    assert sparse
+    for ch in chains:
+        if len(ch) == 1 or (ch[0] in [t[0] for t in light1] and ch[1] in [t[0] for t in light2]):
+            tasks.append((sparse[0], 'cli', 'cnf', [list(t) for t in ch], ctx.seed))
     res = _map(tasks)
     _report(ctx, tasks, res, 'chain')
     ctx.bounds['transformations'] = 'cnfgen -T chains of length 1 and 2 over {} on the bases {}: {} chains'.format(
